@@ -5,7 +5,8 @@ From Centro Require Import Base.Sx Base.EmdBase Spec.Emd Model.Emd Model.EmdCert
   Proofs.EmdDuality Proofs.EmdScaled Proofs.EmdModel Proofs.EmdSsp Proofs.EmdCertModel Proofs.EmdMetric
   Proofs.EmdFuel Proofs.EmdHeap Proofs.EmdTransform Proofs.EmdHeapPos Proofs.EmdHeapOrd Proofs.EmdPotential
   Proofs.EmdMcfCert Proofs.EmdHeapMem Proofs.EmdDijkstra Proofs.EmdDijkstraInit
-  Proofs.EmdTight Proofs.EmdGhost Proofs.EmdCspPost Proofs.EmdPairAddr Proofs.EmdGraphShape Proofs.EmdAugment Proofs.EmdRun Proofs.EmdConserve Proofs.EmdConserveRun Proofs.EmdIndex Proofs.EmdOptimal.
+  Proofs.EmdTight Proofs.EmdGhost Proofs.EmdCspPost Proofs.EmdPairAddr Proofs.EmdGraphShape Proofs.EmdAugment Proofs.EmdRun Proofs.EmdConserve Proofs.EmdConserveRun Proofs.EmdIndex Proofs.EmdOptimal Proofs.EmdWrap.
+From Centro Require Import Model.EmdAsIs.
 From Centro Require Import Model.EmdMcf.
 Import ListNotations.
 Open Scope Z_scope.
@@ -580,3 +581,27 @@ Print Assumptions C10_caps_flow_indexing.
    read back carry the capacity flow), mcf_no_fail_if_flag_clear, artificial_node_unused — the last
    one is FALSE for the real int32 code when max(C) = 2^31-1 (maxC + 1 wraps; candidate finding
    C10-cand-2: the solver never returns) and is only meaningful with max(C) <= 2^31-2. *)
+
+(* ------------------------------------------------------------------------------------------------
+   Round 12.  Finding F21 (known).  C10_artificial_cost_wrap_refuted — kernel-evaluated witness of the
+   exact call emd_hat_int32([1,0],[0,1],[[0,5],[2147483647,0]]): max(C) = 2^31-1 sits between EMPTY
+   bins; the exact model returns the certified optimum 5; on the AS-WRITTEN graph (artificial arcs of
+   cost wrap32(maxC+1) = -2^31, Model/EmdAsIs.v) the line-level solver after 2^6 augmentations has not
+   finished, has raised the companion flag (hop through the artificial node) and has moved no supply;
+   with 2^31-2 in that cell the as-written run finishes with the flag clear and both give 5.
+   Consequently artificial_node_unused is stated only for max(C) <= 2^31-2
+   (Proofs.EmdWrap.artificial_node_unused_statement; C10_wrap32_small: there the as-written cost is
+   the exact one) and is still OPEN, as are x_caps_consistent / read_back_bookkeeping and
+   mcf_no_fail_if_flag_clear. *)
+Theorem C10_artificial_cost_wrap_refuted :
+  max_entry f21_c = 2147483647 /\ wrap32 (max_entry f21_c + 1) = -2147483648 /\
+  emd_certified f21_p f21_q f21_c None 2 false = Some (5, [[0; 1]; [0; 0]]) /\
+  asis_probe f21_p f21_q f21_c None = (false, true, true) /\
+  asis_probe f21_p f21_q f21_c_ok None = (true, false, false) /\
+  emd_certified f21_p f21_q f21_c_ok None 2 false = Some (5, [[0; 1]; [0; 0]]).
+Proof. exact artificial_cost_wrap_refuted. Qed.
+Print Assumptions C10_artificial_cost_wrap_refuted.
+
+Theorem C10_wrap32_small : forall z, 0 <= z <= 2147483646 -> wrap32 (z + 1) = z + 1.
+Proof. exact wrap32_small. Qed.
+Print Assumptions C10_wrap32_small.
